@@ -100,4 +100,153 @@ theorem scanMeasAux_shape (prev : Nat) (buf n : Bytes) (e : MeasEnd) (h : scanMe
           obtain ⟨j1, j2, j3⟩ := i3 r hr
           exact ⟨by simpa [lastIsBS] using j1, congrArg (List.cons b) j2, j3⟩
 
+theorem isTagSpecial_cases (b : Nat) (h : isTagSpecial b = true) : b = cComma ∨ b = cSpace ∨ b = cEq := by
+  simp only [isTagSpecial, Bool.or_eq_true, beq_iff_eq] at h
+  rcases h with (h | h) | h <;> simp [h]
+
+theorem scanTagsKeyAux_shape (prev : Nat) (buf k r : Bytes) (h : scanTagsKeyAux prev buf = .ok (k, r)) :
+    NoBare isTagSpecial (prev == cBS) k ∧ lastIsBS (prev == cBS) k = false ∧ buf = k ++ cEq :: r := by
+  induction buf generalizing prev k r with
+  | nil => simp [scanTagsKeyAux] at h
+  | cons b rest ih =>
+    rw [scanTagsKeyAux] at h
+    split at h
+    · cases h
+    · next hc1 =>
+      split at h
+      · next hc2 =>
+        simp only [Except.ok.injEq, Prod.mk.injEq] at h
+        obtain ⟨rfl, rfl⟩ := h
+        have hp : (prev == cBS) = false := by simpa using hc2.2
+        exact ⟨trivial, by simp [lastIsBS, hp], by rw [hc2.1]; rfl⟩
+      · next hc2 =>
+        cases hrec : scanTagsKeyAux b rest with
+        | error e => rw [hrec] at h; cases h
+        | ok p =>
+          obtain ⟨k', r'⟩ := p
+          rw [hrec] at h
+          simp only [Except.ok.injEq, Prod.mk.injEq] at h
+          obtain ⟨rfl, rfl⟩ := h
+          obtain ⟨i1, i2, i3⟩ := ih b k' r' hrec
+          refine ⟨⟨?_, i1⟩, by simpa [lastIsBS] using i2, congrArg (List.cons b) i3⟩
+          intro hb
+          cases hp : (prev == cBS) with
+          | true => rfl
+          | false =>
+            exfalso
+            have hp' : prev ≠ cBS := by simpa using hp
+            rcases isTagSpecial_cases b hb with hb | hb | hb
+            · exact hc1 ⟨Or.inr hb, hp'⟩
+            · exact hc1 ⟨Or.inl hb, hp'⟩
+            · exact hc2 ⟨hb, hp'⟩
+
+theorem scanTagsKey_shape (buf k r : Bytes) (h : scanTagsKey buf = .ok (k, r)) :
+    k ≠ [] ∧ NoBare isTagSpecial false k ∧ lastIsBS false k = false ∧ buf = k ++ cEq :: r := by
+  cases buf with
+  | nil => simp [scanTagsKey] at h
+  | cons b rest =>
+    rw [scanTagsKey] at h
+    split at h
+    · cases h
+    · next hc =>
+      cases hrec : scanTagsKeyAux b rest with
+      | error e => rw [hrec] at h; cases h
+      | ok p =>
+        obtain ⟨k', r'⟩ := p
+        rw [hrec] at h
+        simp only [Except.ok.injEq, Prod.mk.injEq] at h
+        obtain ⟨rfl, rfl⟩ := h
+        obtain ⟨i1, i2, i3⟩ := scanTagsKeyAux_shape b rest k' r' hrec
+        refine ⟨by simp, ⟨?_, i1⟩, by simpa [lastIsBS] using i2, congrArg (List.cons b) i3⟩
+        intro hb
+        exfalso
+        rcases isTagSpecial_cases b hb with hb | hb | hb
+        · exact hc (Or.inr (Or.inl hb))
+        · exact hc (Or.inl hb)
+        · exact hc (Or.inr (Or.inr hb))
+
+theorem scanTagsValueAux_shape (prev : Nat) (buf v : Bytes) (e : TagEnd)
+    (h : scanTagsValueAux prev buf = .ok (v, e)) :
+    NoBare isTagSpecial (prev == cBS) v ∧ lastIsBS (prev == cBS) v = false ∧
+    (∀ r, e = .key r → buf = v ++ cComma :: r) ∧
+    (∀ r, e = .fields r → buf = v ++ r ∧ r.head? = some cSpace) := by
+  induction buf generalizing prev v e with
+  | nil => simp [scanTagsValueAux] at h
+  | cons b rest ih =>
+    rw [scanTagsValueAux] at h
+    split at h
+    · cases h
+    · next hc1 =>
+      split at h
+      · next hc2 =>
+        simp only [Except.ok.injEq, Prod.mk.injEq] at h
+        obtain ⟨rfl, rfl⟩ := h
+        have hp : (prev == cBS) = false := by simpa using hc2.2
+        refine ⟨trivial, by simp [lastIsBS, hp], ?_, ?_⟩
+        · intro r hr; cases hr; rw [hc2.1]; rfl
+        · intro r hr; cases hr
+      · next hc2 =>
+        split at h
+        · next hc3 =>
+          simp only [Except.ok.injEq, Prod.mk.injEq] at h
+          obtain ⟨rfl, rfl⟩ := h
+          have hp : (prev == cBS) = false := by simpa using hc3.2
+          refine ⟨trivial, by simp [lastIsBS, hp], ?_, ?_⟩
+          · intro r hr; cases hr
+          · intro r hr; cases hr; exact ⟨rfl, by rw [hc3.1]; rfl⟩
+        · next hc3 =>
+          cases hrec : scanTagsValueAux b rest with
+          | error e' => rw [hrec] at h; cases h
+          | ok p =>
+            obtain ⟨v', e'⟩ := p
+            rw [hrec] at h
+            simp only [Except.ok.injEq, Prod.mk.injEq] at h
+            obtain ⟨rfl, rfl⟩ := h
+            obtain ⟨i1, i2, i3, i4⟩ := ih b v' e' hrec
+            refine ⟨⟨?_, i1⟩, by simpa [lastIsBS] using i2, ?_, ?_⟩
+            · intro hb
+              cases hp : (prev == cBS) with
+              | true => rfl
+              | false =>
+                exfalso
+                have hp' : prev ≠ cBS := by simpa using hp
+                rcases isTagSpecial_cases b hb with hb | hb | hb
+                · exact hc2 ⟨hb, hp'⟩
+                · exact hc3 ⟨hb, hp'⟩
+                · exact hc1 ⟨hb, hp'⟩
+            · intro r hr; exact congrArg (List.cons b) (i3 r hr)
+            · intro r hr; exact ⟨congrArg (List.cons b) (i4 r hr).1, (i4 r hr).2⟩
+
+/-- the value part: only `,` and space matter for where it ends (its first byte may be `=`) -/
+theorem scanTagsValue_shape (buf v : Bytes) (e : TagEnd) (h : scanTagsValue buf = .ok (v, e)) :
+    v ≠ [] ∧ NoBare isMeasSpecial false v ∧ lastIsBS false v = false ∧
+    (∀ r, e = .key r → buf = v ++ cComma :: r) ∧
+    (∀ r, e = .fields r → buf = v ++ r ∧ r.head? = some cSpace) := by
+  cases buf with
+  | nil => simp [scanTagsValue] at h
+  | cons b rest =>
+    rw [scanTagsValue] at h
+    split at h
+    · cases h
+    · next hc =>
+      cases hrec : scanTagsValueAux b rest with
+      | error e' => rw [hrec] at h; cases h
+      | ok p =>
+        obtain ⟨v', e'⟩ := p
+        rw [hrec] at h
+        simp only [Except.ok.injEq, Prod.mk.injEq] at h
+        obtain ⟨rfl, rfl⟩ := h
+        obtain ⟨i1, i2, i3, i4⟩ := scanTagsValueAux_shape b rest v' e' hrec
+        refine ⟨by simp, ⟨?_, NoBare_mono isTagSpecial isMeasSpecial (by
+          intro c hc'; simp only [isMeasSpecial, Bool.or_eq_true, beq_iff_eq] at hc'
+          rcases hc' with h | h <;> simp [isTagSpecial, h]) _ _ i1⟩, by simpa [lastIsBS] using i2, ?_, ?_⟩
+        · intro hb
+          exfalso
+          simp only [isMeasSpecial, Bool.or_eq_true, beq_iff_eq] at hb
+          rcases hb with hb | hb
+          · exact hc (Or.inl hb)
+          · exact hc (Or.inr hb)
+        · intro r hr; exact congrArg (List.cons b) (i3 r hr)
+        · intro r hr; exact ⟨congrArg (List.cons b) (i4 r hr).1, (i4 r hr).2⟩
+
 end Influx.LP
